@@ -245,6 +245,62 @@ impl Alien {
     }
 }
 
+fn to_ref(n: &crate::messages::NodeInfo) -> RefInfo {
+    RefInfo {
+        node_id: n.node_id,
+        peers: n.peers.iter().map(|p| (p.node_id, p.addrs.iter().copied().collect())).collect(),
+        claims: n.claims.iter().map(range_of).collect(),
+        peer_timeout: n.peer_timeout,
+        addrs: n.addrs.iter().copied().collect(),
+    }
+}
+
+/// what the format carries of an info: address lists normalised
+fn normalise_info(i: &RefInfo) -> RefInfo {
+    RefInfo { node_id: i.node_id, peers: i.peers.iter().map(|(id, a)| (*id, normalise(a))).collect(), claims: i.claims.clone(), peer_timeout: i.peer_timeout, addrs: normalise(&i.addrs) }
+}
+
+/// The real decoder, given the bytes of a well-formed message (written by the reference encoder, unknown parts
+/// included), returns exactly what was encoded.
+fn real_decodes(w: &mut World, info: &RefInfo, bytes: &[u8], what: &str) -> Result<(), Violation> {
+    w.count("c16_direct_decodes_checked");
+    match io::guarded(|| crate::messages::NodeInfo::decode(bytes)) {
+        Err(p) => Err(Violation::new("no-crash", "node-info-decoder-panicked", format!("decoding {} panicked: {}", what, p))),
+        Ok(Err(e)) => Err(Violation::new("round-trip", "well-formed-node-info-rejected", format!("the decoder rejects {} ({:?}): {:?}; bytes {:02x?}", what, e, info, &bytes[..bytes.len().min(200)]))),
+        Ok(Ok(got)) => {
+            let got = to_ref(&got);
+            let want = normalise_info(info);
+            if got != want {
+                return Err(Violation::new("round-trip", "node-info-differs-after-round-trip", format!("{}: encoded {:?}, decoded {:?}", what, want, got)));
+            }
+            Ok(())
+        }
+    }
+}
+
+/// A real node's own announcement, encoded by the real encoder, is read back identically by the real decoder and by
+/// the reference decoder (at most 20 peers travel).
+fn real_round_trip(w: &mut World, n: usize) -> Result<(), Violation> {
+    let info = match w.nodes[n].cloud.as_ref() {
+        Some(c) => super::world::with_cloud_ref(c),
+        None => return Ok(()),
+    };
+    let mut buf = MsgBuffer::new(100);
+    if let Err(p) = io::guarded(|| info.encode(&mut buf)) {
+        return Err(Violation::new("no-crash", "node-info-encoder-panicked", format!("n{}: {}", n, p)));
+    }
+    let bytes = buf.message().to_vec();
+    let mut want = to_ref(&info);
+    want.peers.truncate(20);
+    let want = normalise_info(&want);
+    w.count("c16_real_encoder_round_trips_checked");
+    match ref_decode(&bytes) {
+        Some(r) if r == want => {}
+        other => return Err(Violation::new("round-trip", "real-encoding-differs-from-format", format!("n{} encoded {:?}; the format reads {:?}", n, want, other))),
+    }
+    real_decodes(w, &want, &bytes, &format!("n{}'s own announcement", n))
+}
+
 fn range_of(r: &crate::types::Range) -> (Vec<u8>, u8) {
     (r.base.data[..r.base.len as usize].to_vec(), r.prefix_len)
 }
@@ -352,6 +408,7 @@ fn scenario(w: &mut World, ctx: &RunCtx, states: &mut Vec<u64>) -> Result<(), Vi
         w.count("c16_runs_with_alien");
     }
     let mut alien_listed = false;
+    let mut established_at: Option<u64> = None;
     let end_ms = 60_000 + w.ch.choose("run_ms", 200_000) as u64;
     let mut next_alien_tick = 1_000u64;
     let mut last_alien_info: Option<RefInfo> = None;
@@ -380,6 +437,12 @@ fn scenario(w: &mut World, ctx: &RunCtx, states: &mut Vec<u64>) -> Result<(), Vi
             }
         };
         guard(w, &st)?;
+        // ---- (a) a node's own announcement as it stands now survives its own codec
+        if let (Some(j), StepKind::Tick { .. }) = (st.node, &st.kind) {
+            if w.ch.chance("self_round_trip", 100) {
+                real_round_trip(w, j)?;
+            }
+        }
         // ---- (b) what a real node decoded from another real node = what the sender encoded (normalised)
         if let Some(j) = st.node {
             for ev in &st.probes {
@@ -501,6 +564,7 @@ fn scenario(w: &mut World, ctx: &RunCtx, states: &mut Vec<u64>) -> Result<(), Vi
         match st.kind {
             StepKind::Action(10, _) => {
                 let payload = ref_encode(&alien.info(vec![]), &random_unknown_parts(&mut rng, &mut w.ch));
+                real_decodes(w, &alien.info(vec![]), &payload, "the alien peer's handshake payload")?;
                 let mut pc = alien.crypto.peer_instance(Tagged(payload));
                 let mut msg = MsgBuffer::new(100);
                 if io::guarded(|| pc.initialize(&mut msg)).is_ok() {
@@ -521,6 +585,7 @@ fn scenario(w: &mut World, ctx: &RunCtx, states: &mut Vec<u64>) -> Result<(), Vi
                 let unknown = random_unknown_parts(&mut rng, &mut w.ch);
                 let info = alien.info(vec![(Some(rng_id(&mut rng)), vec![SocketAddr::new(IpAddr::V4(Ipv4Addr::new(198, 18, 1, 1)), 1)])]);
                 let body = ref_encode(&info, &unknown);
+                real_decodes(w, &info, &body, "the alien peer's announcement")?;
                 if let Some(pc) = alien.pc.as_mut() {
                     let mut msg = MsgBuffer::new(100);
                     msg.set_length(body.len());
@@ -556,6 +621,7 @@ fn scenario(w: &mut World, ctx: &RunCtx, states: &mut Vec<u64>) -> Result<(), Vi
                             }
                             MessageResult::Initialized(p) | MessageResult::InitializedWithReply(p) => {
                                 alien.established = true;
+                                established_at = Some(w.now_ms);
                                 w.count("c16_alien_established");
                                 if !buf.is_empty() {
                                     w.inject(alien.addr, node0, buf.message().to_vec(), 5, "alien");
@@ -632,6 +698,13 @@ fn scenario(w: &mut World, ctx: &RunCtx, states: &mut Vec<u64>) -> Result<(), Vi
         }
     }
     let _ = last_alien_info;
+    // a well-formed newer peer is accepted: on a network that alters nothing, the node that completed the handshake
+    // with the alien has decoded its payload and lists it (the alien repeats its last message every second)
+    if let Some(at) = established_at {
+        if with_alien && !corrupting && !alien_listed && at + 30_000 < w.now_ms && w.is_up(0) {
+            return Err(Violation::new("forward-compatible", "well-formed-peer-never-accepted", format!("the alien-version peer completed its handshake at t={:.1}s; n0 never listed it until t={:.1}s{}", at as f64 / 1000.0, w.now_ms as f64 / 1000.0, mesh::dump_state(w))));
+        }
+    }
     states.push(mesh::abstract_state(w));
     // probes to the alien's claim arrived at the alien, byte-identical
     if with_alien && alien.established && !corrupting {
